@@ -225,3 +225,11 @@ add('TCP',
     Rule('X-TCP', 'T::parse(&$b:p)', 'parse_vec::<T>(&$b)'),
     Rule('X-TCP', '$b:p.extend(&$s:i[$a:e..$e:e]);', 'extend_range(&mut $b, &$s, $a, $e);', stmt_start=True),
     Rule('X-TCP', 'for $p:i in ($a:e..($b:e)).step_by($s:e) $body:b', '{ let mut $p = $a; while $p < $b { $body $p += $s; } }'))
+
+# X-AU (unit au): iterator / conversion idioms of au.rs
+add('AU',
+    Rule('X-AU', '$w:i.iter().take($n:e).copied().collect::<Vec<u8>>().chunks_exact(2).map(|chunk| $body:b).collect::<Vec<Float>>()', 'pcm16_decode(&$w, $n)'),
+    Rule('X-AU', '$w:i.iter().take($n:e).copied().collect::<Vec<_>>()', 'take_bytes(&$w, $n)'),
+    Rule('X-AU', 'u32::from_be_bytes($v:i[$a:e..$b:e].try_into().unwrap())', 'be32_range(&$v, $a, $b)'),
+    Rule('X-AU', 'u32::from_be_bytes($v:i.try_into().unwrap())', 'be32_vec($v)'),
+    Rule('X-AU', 'Encoding::Pcm16 as u32', 'pcm16_code()'))
